@@ -425,3 +425,26 @@ Proof.
   apply (bezier_vertices_ieee_depth E points n' 19 path fuel path'); try assumption; [lia|].
   apply (within32_bounded_tight E); assumption.
 Qed.
+
+(* the vertex pushed after the loop is the end point of the curve *)
+Lemma bez_last_posR points n' : length points = S n' -> Bez (map posR points) 1 = posR (last points pos0).
+Proof.
+  intros H. rewrite (Bez_1 _ n') by (rewrite map_length; exact H).
+  symmetry. apply (map_last' pos0 zeroRR posR). reflexivity.
+Qed.
+
+(* the size of the allowance, cubic segments with coordinates up to 1024 *)
+Lemma E_bez_10_3_19 : E_bez 10 3 19 <= 1 / 40.
+Proof.
+  unfold E_bez, uE.
+  change (10 - 22)%Z with (-12)%Z. change (10 - 25)%Z with (-15)%Z. change (10 - 24)%Z with (-14)%Z.
+  assert (H150 : bp (-150) <= bp (-30)) by (apply bpow_le; lia).
+  pose proof (bpow_gt_0 radix2 (-150)) as P150.
+  replace (bp (-30)) with (/ 1073741824) in H150 by (cbn; lra).
+  replace (bp (-20)) with (/ 1048576) by (cbn; lra).
+  replace (bp (-12)) with (/ 4096) by (cbn; lra).
+  replace (bp (-15)) with (/ 32768) by (cbn; lra).
+  replace (bp (-14)) with (/ 16384) by (cbn; lra).
+  replace (INR 3) with 3 by (cbn; lra). replace (INR 19) with 19 by (cbn; lra).
+  set (z := bp (-150)) in *. lra.
+Qed.
